@@ -12,6 +12,7 @@ require (
 	go.opentelemetry.io/collector/confmap/provider/yamlprovider v1.30.0
 	go.opentelemetry.io/collector/featuregate v1.30.0
 	go.opentelemetry.io/collector/otelcol v0.124.0
+	sigs.k8s.io/yaml v1.4.0
 )
 
 require (
@@ -115,7 +116,6 @@ require (
 	google.golang.org/grpc v1.71.1 // indirect
 	google.golang.org/protobuf v1.36.6 // indirect
 	gopkg.in/yaml.v3 v3.0.1 // indirect
-	sigs.k8s.io/yaml v1.4.0 // indirect
 )
 
 replace (
